@@ -30,8 +30,8 @@ CHECKS = {
             "the select tie of db.Reload (worker done and timeout in the same instant) is not reachable under the scheduler",
             "no reader acquisition is started after shutdown began (the server stops its listeners first)",
         ],
-        "required_probes": {"quick": ["reload_ok", "reload_timed_out", "validation_failed", "reload_error", "real_backend_history_with_shutdown"],
-                            "thorough": ["reload_ok", "reload_timed_out", "validation_failed", "reload_error", "real_backend_history_with_shutdown"]},
+        "required_probes": {"quick": ["reload_ok", "reload_timed_out", "validation_failed", "reload_error", "real_backend_history_with_shutdown", "lowlevel_catchup_failed"],
+                            "thorough": ["reload_ok", "reload_timed_out", "validation_failed", "reload_error", "real_backend_history_with_shutdown", "lowlevel_catchup_failed"]},
     },
     "C05": {
         "test": "TestC05",
@@ -56,7 +56,7 @@ CHECKS = {
             "publish and reload are never concurrent with each other (each reload has a definite target)",
         ],
         "required_probes": {"quick": ["query_overlaps_reload", "reload_ok", "reload_timed_out", "validation_failed", "reload_error"],
-                            "thorough": ["query_overlaps_reload", "reload_ok", "reload_timed_out", "validation_failed", "reload_error", "decoy_published"]},
+                            "thorough": ["query_overlaps_reload", "reload_ok", "reload_timed_out", "validation_failed", "reload_error", "decoy_published", "lowlevel_catchup_failed"]},
     },
     "C12": {
         "test": "TestC12",
@@ -236,7 +236,7 @@ CHECKS = {
         "level": "exploration",
         "budget": {"quick": 40, "thorough": 600},
         "rule": ("tier (a), controlled schedules: the C05 server plus the real ReloadChan loop, the real PeriodicDBReload on the fake ticker, a stats "
-                 "reporter calling ReportBackendStats, the response cache on or off, and Close at a seeded position (after in-flight queries drained, "
+                 "reporter calling ReportBackendStats, reload signals sent through ReloadChan by a task of their own (as Server.ReloadDB does on SIGHUP), the response cache on or off, and Close at a seeded position (after in-flight queries drained, "
                  "as the listeners do); violations are a quiescent state with unfinished tasks (deadlock), any panic, and any call that reaches a closed "
                  "storage back end (intercepted by the monitor; a crash on the real cgo/mmap back ends). Non-trivial = at least one pre-emption; "
                  "distinct = schedule hash. Tier (b), data races: see the race_tier block of this evidence."),
@@ -247,7 +247,7 @@ CHECKS = {
             "not_run": ["fsnotify watchers (watchDBAndReload's read of the database path is out of reach)", "network"],
         },
         "assumptions": ["Close is called after in-flight queries finished (dns.Server.Shutdown waits for its handlers); reload loop, periodic reload and stats reporter keep running, as in the shipped binary"],
-        "required_probes": {"quick": ["shutdown_reached", "periodic_reload_running", "stats_reporter_running"], "thorough": ["shutdown_reached", "periodic_reload_running", "stats_reporter_running"]},
+        "required_probes": {"quick": ["shutdown_reached", "periodic_reload_running", "stats_reporter_running", "async_signals_and_shutdown"], "thorough": ["shutdown_reached", "periodic_reload_running", "stats_reporter_running", "async_signals_and_shutdown", "lowlevel_catchup_failed"]},
     },
     "C20": {
         "test": "TestC20",
